@@ -225,14 +225,22 @@ func combosFor(t *rapid.T, label string, reg *pubdata.RegimeInfo, include string
 		cb := Combo{Cat: cat.Code}
 		var keys []pubdata.RateInfo
 		for _, r := range cat.Rates {
-			if r.Exempt || (r.HasValues && !r.Qualified) {
+			if r.Exempt || (r.HasValues && (!r.Qualified || len(r.Exts) > 0)) {
 				keys = append(keys, r)
 			}
 		}
 		k := rapid.IntRange(0, 9).Draw(t, label+"_how")
 		switch {
 		case k < pKey && len(keys) > 0:
-			cb.Rate = keys[rapid.IntRange(0, len(keys)-1).Draw(t, label+"_key")].Key
+			kr := keys[rapid.IntRange(0, len(keys)-1).Draw(t, label+"_key")]
+			cb.Rate = kr.Key
+			// a rate whose value depends on an extension (PT regions): mostly with one
+			if len(kr.Exts) > 0 && rapid.IntRange(0, 3).Draw(t, label+"_qual") > 0 {
+				cb.Ext = map[string]string{}
+				for k, v := range kr.Exts[rapid.IntRange(0, len(kr.Exts)-1).Draw(t, label+"_qualv")] {
+					cb.Ext[k] = v
+				}
+			}
 		default:
 			cb.Percent = percent(t, label+"_pct")
 			if strings.HasPrefix(cb.Percent, "-") && !hostileMode {
@@ -243,7 +251,10 @@ func combosFor(t *rapid.T, label string, reg *pubdata.RegimeInfo, include string
 			}
 		}
 		if rapid.IntRange(0, 11).Draw(t, label+"_ext") < pExt {
-			cb.Ext = map[string]string{"xx-verif-group": rapid.SampledFrom([]string{"A", "B"}).Draw(t, label+"_extv")}
+			if cb.Ext == nil {
+				cb.Ext = map[string]string{}
+			}
+			cb.Ext["xx-verif-group"] = rapid.SampledFrom([]string{"A", "B"}).Draw(t, label+"_extv")
 		}
 		if cb.Rate == "" && len(others) > 0 && rapid.IntRange(0, 14).Draw(t, label+"_cty") < pCty {
 			if cat.Code == "VAT" && rapid.IntRange(0, 2).Draw(t, label+"_ctyvat") > 0 {
